@@ -38,12 +38,18 @@ def cases(tier):
                 for probes in ((1, 2) if tier == "quick" else (1, 2, 3)):
                     out.append(f"{h}/{op}/i{ni}o{no}d{d}/p{probes}")
             out.append(f"{h}/dense/i{ni}o{no}d{d}/p1")
+    # keyword arguments of the map (fun_kwargs) must reach the value AND the differentiated function
+    ni, no, d = shapes[0]
+    for op in ("dense", "trace", "diag"):
+        out.append(f"materialize/{op}/i{ni}o{no}d{d}/p0/kw")
+        out.append(f"mc_fwd/{op}/i{ni}o{no}d{d}/p1/kw")
+        out.append(f"mc_rev/{op}/i{ni}o{no}d{d}/p1/kw")
     return out
 
 
 def parse(case_id):
     import re
-    h, op, sz, pr = case_id.split("/")
+    h, op, sz, pr = case_id.split("/")[:4]
     ni, no, d = map(int, re.match(r"i(\d+)o(\d+)d(\d+)", sz).groups())
     return h, op, ni, no, d, int(pr[1:])
 
@@ -118,6 +124,7 @@ def rademacher_expectation(p, vvars):
 
 def build(case_id):
     handler, op, ni, no, d, probes = parse(case_id)
+    kw = case_id.endswith("/kw")
 
     def make(dom):
         from probdiffeq import probdiffeq
@@ -129,8 +136,10 @@ def build(case_id):
         nv = ni if handler == "mc_fwd" else no
         V = sym_array(dom, "v", (max(probes, 1), nv, d)) if handler != "materialize" else np.zeros((1, 1, 1))
         make.sym = (co, x, V)
+        w = sym_array(dom, "w", ()) if kw else np.zeros(())
 
-        def fn(co, x, V):
+        def fn(co, x, V, w):
+            kwargs = {"w": w} if kw else {}
             if handler == "materialize":
                 h = probdiffeq.jacobian_materialize()
             elif handler == "mc_fwd":
@@ -146,13 +155,16 @@ def build(case_id):
                     return V[tuple(slice(0, a) for a in shape)].astype(dtype)
                 pdrandom.rademacher = fake
             try:
-                f = lambda s: fun_eval(co, s)   # noqa: E731
-                if op == "dense":
-                    fx, J, st = h.materialize_dense(f, x, state)
-                elif op == "trace":
-                    fx, J, st = h.calculate_trace_along_d(f, x, state)
+                if kw:
+                    f = lambda s, *, w=0.0: fun_eval(co, s) * (1.0 + w)   # noqa: E731
                 else:
-                    fx, J, st = h.calculate_diagonal_along_d(f, x, state)
+                    f = lambda s: fun_eval(co, s)   # noqa: E731
+                if op == "dense":
+                    fx, J, st = h.materialize_dense(f, x, state, **kwargs)
+                elif op == "trace":
+                    fx, J, st = h.calculate_trace_along_d(f, x, state, **kwargs)
+                else:
+                    fx, J, st = h.calculate_diagonal_along_d(f, x, state, **kwargs)
             finally:
                 pdrandom.rademacher = orig
             if handler == "materialize":
@@ -161,15 +173,18 @@ def build(case_id):
                 import jax
                 adv = jnp.any(jax.random.key_data(st) != jax.random.key_data(state)).astype(float)
             return fx, J, adv
-        return fn, (co, x, V)
+        return fn, (co, x, V, w)
 
     def goals(args, out, orc):
-        co, x, V = args
+        co, x, V, w = args
         fx, J, adv = out
         sym = orc.sym
         co = {k: orc.arr(v) for k, v in co.items()}
         x = orc.arr(x)
         Jo = jac_oracle(co, x, sym)
+        fac = (orc.arr(w)[()] + 1) if kw else None
+        if kw:
+            Jo = Jo * fac
         if op == "dense":
             want = Jo
         elif op == "trace":
@@ -186,7 +201,7 @@ def build(case_id):
                 for m in range(no):
                     for n in range(ni):
                         want[a, m, n] = Jo[m, a, n, a]
-        res = {"value": (orc.arr(fx), fun_eval(co, x))}
+        res = {"value": (orc.arr(fx), fun_eval(co, x) * fac if kw else fun_eval(co, x))}
         if handler != "materialize" and op != "dense":
             # only the calls that draw probes consume randomness (materialize_dense of the stochastic handlers draws none)
             res["handler state (PRNG key) advanced by the call [concrete]"] = (orc.arr(adv), orc.arr(np.asarray(1.0)))
